@@ -162,13 +162,16 @@ func startVflow(dir string, ports e2ePorts, cfg e2eConfig, race bool) (*vflowPro
 			return p, fmt.Errorf("collector exited during start-up: %v: %s", p.status, p.stderrTail())
 		default:
 		}
-		if _, err := p.flowStats(); err == nil {
+		// the stats listener comes up concurrently with the four protocol listeners; a protocol reports
+		// its workers only after its UDP socket is bound, so wait for all four
+		if fs, err := p.flowStats(); err == nil && fs.IPFIX != nil && fs.NetflowV9 != nil && fs.NetflowV5 != nil && fs.SFlow != nil &&
+			fs.IPFIX.Workers > 0 && fs.NetflowV9.Workers > 0 && fs.NetflowV5.Workers > 0 && fs.SFlow.Workers > 0 {
 			return p, nil
 		}
 		time.Sleep(30 * time.Millisecond)
 	}
 	p.kill()
-	return p, fmt.Errorf("collector did not answer its stats API within 10 s: %s", p.stderrTail())
+	return p, fmt.Errorf("collector did not report all four listeners through its stats API within 10 s: %s", p.stderrTail())
 }
 
 func (p *vflowProc) stderrText() string {
